@@ -12,7 +12,9 @@ THEOREMS = ["C12_single_use_delivered_at_most_once", "C12_slot_request", "C12_se
             "C12_repeat_use_never_single_use", "C12_builder_refuses_multi_use_of_non_clone",
             "C12_non_clone_stored_single_use", "C12_nonvacuous"]
 
-RULE = ("three parts. (races) 2-4 threads x 1-2 requests for one or two single-use values (some_call/next_call .returns(v), .once(), also behind a "
+RULE = ("four parts. (composite) return types with owned leaves inside Option/Result/Vec/Poll/tuples next to borrowed parts (the C17 grammar, own crate): "
+        "every value requested 3x through the single-use path, once through next_call, 3x through each_call and through n_times(3), compared with the model "
+        "(a taken owned leaf makes later single-use requests fail, repeated-use requests always deliver). (races) 2-4 threads x 1-2 requests for one or two single-use values (some_call/next_call .returns(v), .once(), also behind a "
         "then()), on the real runtime under the controlled scheduler: ALL interleavings for 2 and 3 threads x 1 request, random ones beyond; compared with "
         "the Layer B model on trace, who receives the value, who panics, verdict. (histories) sequential histories of 0-6 requests through original and "
         "clones with the numbers of live instrumented values (constructed - dropped, Clone and non-Clone type) observed after every step and after the "
@@ -90,6 +92,54 @@ def single_use_requested_twice(case):
     return False
 
 
+# ---------------------------------------------------------------- composite returns (machinery of C17, own crate)
+def has_owned_under_container(t):
+    def owned(t):
+        return t[0] == "own" or (t[0] not in ("ref",) and any(owned(x) for x in t[1:] if isinstance(x, tuple)) or
+                                 (t[0] == "tup" and any(owned(x) for x in t[1])))
+    return t[0] not in ("own", "ref") and owned(t)
+
+
+def composite_part(rng, tier):
+    """owned leaves inside Option/Result/Vec/Poll/tuples: single-use vs repeated-use requests.
+    returns (number of cases, list of (type, value tokens, model lines, impl lines))"""
+    import os, shutil
+    from . import C17
+    src = os.path.join(C.VERIF, "harness", "outputs")
+    dst = os.path.join(C.VERIF, "harness", "outputs12")
+    os.makedirs(os.path.join(dst, "src"), exist_ok=True)
+    for f in ("main.rs", "obs.rs"):
+        a, b = os.path.join(src, "src", f), os.path.join(dst, "src", f)
+        if not os.path.exists(b) or open(a).read() != open(b).read():
+            shutil.copy(a, b)
+    tin = open(os.path.join(src, "Cargo.toml.in")).read().replace('name = "voutputs"', 'name = "voutputs12"')
+    if not os.path.exists(os.path.join(dst, "Cargo.toml.in")) or open(os.path.join(dst, "Cargo.toml.in")).read() != tin:
+        open(os.path.join(dst, "Cargo.toml.in"), "w").write(tin)
+    old = C17.HARNESS
+    C17.HARNESS = "outputs12"
+    try:
+        types = [t for t in C17.gen_types(rng, "quick" if tier == "quick" else "thorough") if has_owned_under_container(t)]
+        infos = [i for i in C17.analyse_types(types) if i["kind"].split("<")[0] in ("Deep", "Shallow") or not i["accept"]]
+        infos.sort(key=lambda i: -C17.depth(i["ty"]))
+        infos = infos[:90 if tier == "quick" else 300]
+        binary, acc, mism = C17.build_accepted(infos)
+        cases = []
+        for k, inf in enumerate(acc):
+            it = C17.parse_in(inf["in"])
+            for v in C17.values_for(rng, it, tier)[:10]:
+                cases.append({"k": k, "v": v})
+        impl, model = C17.run_cases(binary, acc, cases)
+        bad = []
+        for n, c in enumerate(cases):
+            if C17.strip_obs(impl[n]) != C17.strip_obs(model[n]):
+                bad.append({"rust_return_type": acc[c["k"]]["rust"], "output_kind": acc[c["k"]]["kind"], "returns_input_type": acc[c["k"]]["in"],
+                            "type": acc[c["k"]]["ty"], "value": c["v"], "value_tokens": " ".join(C17.tokens(c["v"])),
+                            "expected_by_model": C17.strip_obs(model[n]), "observed_on_implementation": C17.strip_obs(impl[n])})
+        return len(cases), len(acc), bad
+    finally:
+        C17.HARNESS = old
+
+
 def run(tier, seed):
     t0 = time.time()
     rng = random.Random(seed)
@@ -110,19 +160,22 @@ def run(tier, seed):
     nt = sum(1 for c in {canon(c): c for c in hist}.values() if single_use_requested_twice(c))
     nt += sum(1 for c in {canon({k: v for k, v in c.items() if not k.startswith('_')}): c for c in races}.values()
               if len({t for th in c["threads"] for t in th and [th[0][0]]}) >= 1 and len(c["threads"]) >= 2)
+    # (composite)
+    n_comp, n_comp_types, comp_bad = composite_part(rng, tier)
     n_ok = sum(1 for k in range(len(progs)) if rv[k])
     cov = {
-        "obligations": len(obligations) + 3,
-        "discharged": len(obligations) + (0 if type_bad else 1) + (0 if race_bad else 1) + (0 if hbad else 1),
+        "obligations": len(obligations) + 4,
+        "discharged": len(obligations) + (0 if type_bad else 1) + (0 if race_bad else 1) + (0 if hbad else 1) + (0 if comp_bad else 1),
         "checker_cmd": f"make -C /verif/coq ; ./check C12 --tier {tier}",
         "trusted_base": C.TRUSTED_BASE + ["rustc's trait resolution decides the must-not-compile programs; sequentially consistent scheduler"],
         "theorems": obligations,
         "correspondence_obligation": "races: trace/outcomes/verdict = Layer B model on the same schedule; histories: outcomes and live-value counts = Layer A model; "
                                      "type level: model well-typedness = rustc verdict",
-        "evaluations": len(races) + len(hist) + len(progs), "distinct_nontrivial": nt, "rule": RULE,
+        "evaluations": len(races) + len(hist) + len(progs) + n_comp, "distinct_nontrivial": nt, "rule": RULE,
         "samples": [B.harness_line(races[0], "sample"), K.harness_line(hist[0], "sample"), R.describe(progs[5])],
         "distribution": {"race programs x schedules": len(races), "races with all interleavings": sum(1 for c in races if c.get("_exh")),
-                         "histories": len(hist), "builder programs": len(progs), "builder programs rustc accepts": n_ok,
+                         "histories": len(hist), "composite return types": n_comp_types, "composite values requested": n_comp,
+                         "builder programs": len(progs), "builder programs rustc accepts": n_ok,
                          "builder programs rustc rejects": len(progs) - n_ok},
     }
     def fail(payload, no_input=False):
@@ -130,6 +183,13 @@ def run(tier, seed):
         C.write_evidence("C12", tier, seed, cov, time.time() - t0, 1)
         C.violation("C12", path, no_input=no_input)
         return 1
+    if comp_bad:
+        b = min(comp_bad, key=lambda x: (len(x["rust_return_type"]), len(x["value_tokens"])))
+        b.update({"property": "C12", "seed": seed, "part": "composite",
+                  "theorem_or_correspondence": "correspondence C12 (owned leaves inside composite returns: single-use vs repeated-use requests; model Macro/Output.v, theorems C17_single_use / C17_multi_use)",
+                  "reading": "S<i>: i-th request after some_call().returns(v); O1: next_call().returns(v); M<i>: each_call().returns(v); T<i>: some_call().returns(v).n_times(3); `P once` = cannot return value more than once",
+                  "disagreeing_cases_in_run": len(comp_bad)})
+        return fail(b)
     if hbad:
         i = hbad[0][0]
         small = heng.shrink(hist[i])
@@ -152,7 +212,7 @@ def run(tier, seed):
                      "case": {"program_index": k, "prog": progs[k]}, "disagreements": len(type_bad)})
     C.write_evidence("C12", tier, seed, cov, time.time() - t0, 0,
                      assumptions=["model/implementation agreement on the generated programs, schedules and histories only"])
-    print(f"C12: {len(obligations)} theorems closed; {len(races)} scheduled races, {len(hist)} histories, {len(progs)} builder programs agree ({time.time()-t0:.1f}s)")
+    print(f"C12: {len(obligations)} theorems closed; {len(races)} scheduled races, {len(hist)} histories, {n_comp} composite requests, {len(progs)} builder programs agree ({time.time()-t0:.1f}s)")
     return 0
 
 
@@ -170,6 +230,23 @@ def replay(path):
         impl, model = eng.both([payload["case"]])
         print("model:", model[0]); print("impl :", impl[0])
         if B.project(impl[0]) != B.project(model[0]):
+            C.violation("C12", path); return 1
+    elif part == "composite":
+        import os
+        from . import C17
+        old = C17.HARNESS
+        C17.HARNESS = "outputs12"
+        try:
+            infos = C17.analyse_types([json.loads(json.dumps(payload["type"]), object_hook=None)])
+            def tup(x):
+                return tuple(tup(y) for y in x) if isinstance(x, list) and x and isinstance(x[0], str) else ([tup(y) for y in x] if isinstance(x, list) else x)
+            infos = C17.analyse_types([tup(payload["type"])])
+            binary, acc, mism = C17.build_accepted(infos)
+            impl, model = C17.run_cases(binary, acc, [{"k": 0, "v": payload["value"]}])
+        finally:
+            C17.HARNESS = old
+        print("model:", C17.strip_obs(model[0])); print("impl :", C17.strip_obs(impl[0]))
+        if C17.strip_obs(impl[0]) != C17.strip_obs(model[0]):
             C.violation("C12", path); return 1
     elif part == "types":
         prog = tuple(payload["case"]["prog"])
